@@ -1942,3 +1942,54 @@ def rule_delete_clears_every_table(ctx, rep, rid: str) -> None:
     else:
         a, b, p = bad
         rep.bad(rid, key, f"{f.qual} can return after `{short(a, 40)}` without reaching `{short(b, 40)}` (lines {[x.line for x in p if x.line][:6]}): one half of an accessor pair stays behind after `delete`", f"{f.module.rel}:{a.lineno}")
+
+
+def rule_constructor_result_objects_include_functions(ctx, rep, rid: str) -> None:
+    """`new F` yields what F returns when that is an object - and a function is one.  The interpreter keeps functions
+    in a class of their own, so the test on the returned value has to name it next to the object class."""
+    rep.rule(rid, "where a return from a constructor call decides between the returned value and the new instance, the `is an object` test accepts the function class as well as the object class", floor=1)
+    df, _ = ctx.facts.vm_dispatcher()
+    n = 0
+    for m in df.cls.all_methods:
+        if isinstance(m.node, ast.Lambda):
+            continue
+        for t in m.own_nodes():
+            if not (isinstance(t, ast.If) and "is_constructor" in norm(t.test)):
+                continue
+            for c in ast.walk(t):
+                if isinstance(c, ast.Call) and norm(c.func) == "isinstance" and len(c.args) == 2:
+                    names = {norm(e) for e in (c.args[1].elts if isinstance(c.args[1], ast.Tuple) else [c.args[1]])}
+                    if "JSObject" not in names:
+                        continue
+                    n += 1
+                    key = f"{m.qual}:constructor-result@{short(c, 40)}"
+                    if "JSFunction" in names:
+                        rep.ok(rid, key)
+                    else:
+                        rep.bad(rid, key, f"{m.qual} keeps what a constructor returns only if `{short(c, 50)}`: a returned function is not a JSObject here, so `function A(){{ return function(){{}} }}; typeof new A()` is 'object' (the discarded instance) instead of 'function'", f"{m.module.rel}:{c.lineno}")
+            # the same decision made on the script-visible type: typeof null is "object" too
+            for c in ast.walk(t):
+                if isinstance(c, ast.Compare) and isinstance(c.left, ast.Call) and norm(c.left.func) in ("js_typeof", "self._typeof") and len(c.ops) == 1 and isinstance(c.ops[0], (ast.In, ast.NotIn)) and isinstance(c.comparators[0], (ast.Tuple, ast.List, ast.Set)):
+                    kinds = {e.value for e in c.comparators[0].elts if isinstance(e, ast.Constant)}
+                    if "object" not in kinds:
+                        continue
+                    n += 1
+                    key = f"{m.qual}:constructor-result@{short(c, 40)}"
+                    arg = norm(c.left.args[0]) if c.left.args else "?"
+                    null_excluded = any(isinstance(x, ast.Compare) and norm(x.left) == arg and any(norm(k) == "NULL" for k in x.comparators) for x in ast.walk(t.test if t.test is not c else t)) or any(isinstance(x, ast.Compare) and x is not c and norm(x.left) == arg and any(norm(k) == "NULL" for k in x.comparators) for p_ in _enclosing_tests(c) for x in ast.walk(p_))
+                    if "function" not in kinds:
+                        rep.bad(rid, key, f"{m.qual} keeps what a constructor returns only if `{short(c, 50)}`: a returned function is dropped", f"{m.module.rel}:{c.lineno}")
+                    elif not null_excluded:
+                        rep.bad(rid, key, f"{m.qual} decides by `{short(c, 50)}` whether a constructor returned an object: typeof null is 'object' as well, so `function A(){{ return null }}; new A()` is null instead of the new instance", f"{m.module.rel}:{c.lineno}")
+                    else:
+                        rep.ok(rid, key)
+    if n == 0:
+        raise AnalysisError(f"{rid}: no object test on the result of a constructor call found")
+
+
+def _enclosing_tests(n):
+    p = getattr(n, "_parent", None)
+    while p is not None:
+        if isinstance(p, (ast.If, ast.IfExp, ast.While)):
+            yield p.test
+        p = getattr(p, "_parent", None)
